@@ -110,31 +110,31 @@ func (tx *Tx) Commit() error {
 }
 
 func (tx *Tx) beforeCommit() {
-	if len(txHooks) != 0 {
-		hl.RLock()
-		defer hl.RUnlock()
+	hl.RLock()
+	defer hl.RUnlock()
 
-		for i := range txHooks {
-			txHooks[i].BeforeCommit(tx)
-		}
+	for i := range txHooks {
+		txHooks[i].BeforeCommit(tx)
 	}
 }
 
 func (tx *Tx) Rollback() error {
-	if len(txHooks) != 0 {
-		hl.RLock()
-		defer hl.RUnlock()
-
-		for i := range txHooks {
-			txHooks[i].BeforeRollback(tx)
-		}
-	}
+	tx.beforeRollback()
 
 	if tx.target == nil {
 		// an XA branch has no local transaction underneath (Conn.BeginTx passes a nil target)
 		return nil
 	}
 	return tx.target.Rollback()
+}
+
+func (tx *Tx) beforeRollback() {
+	hl.RLock()
+	defer hl.RUnlock()
+
+	for i := range txHooks {
+		txHooks[i].BeforeRollback(tx)
+	}
 }
 
 // init
